@@ -75,6 +75,8 @@ impl Stats {
 
 pub struct RunReport {
     pub violations: Vec<Violation>,
+    /// fault-free executions that can be cross-checked against the shipped binary
+    pub proc_cases: Vec<crate::proc_check::ProcCase>,
     /// the run exercised the property (by the campaign's stated rule)
     pub nontrivial: bool,
 }
@@ -131,4 +133,7 @@ pub struct ReplayFile {
     pub minimise_executions: usize,
     pub trace: Trace,
     pub original_trace: Option<Trace>,
+    /// set for process-level mismatches: the case to run against the shipped binary
+    #[serde(default)]
+    pub proc_case: Option<crate::proc_check::ProcCase>,
 }
